@@ -80,17 +80,25 @@ class AckFamily:
             if t in ('deliver', 'cb') and e['chan'] == 'main':
                 i = e['id']
                 obs['c09.deliveries'] += 1
+                if e['retry'] == 0 and i in M and (M[i]['epoch'], 0) not in M[i]['seen']:
+                    # the (late) record of the first delivery of a message whose redelivery was recorded first
+                    M[i]['seen'].add((M[i]['epoch'], 0))
+                    if e.get('stored') is not True:
+                        out.append(V('C09', 'not-stored-before-handler', store, f"message {e['type']}/{e['state']}/{e['key']} was not readable from the store when its handler ran", scenario=sid))
+                    continue
                 if e['retry'] == 0 and i not in M:
                     if e.get('stored') is not True:
                         out.append(V('C09', 'not-stored-before-handler', store, f"message {e['type']}/{e['state']}/{e['key']} was not readable from the store when its handler ran", scenario=sid))
                     acted = any(a['ok'] and a['pid'] == e['pid'] and a['tid'] == e['tid'] and a['call'] < e['seq'] for a in h.actions)
-                    M[i] = {'maybe_completed': True, 'first_seq': e['seq'], 'status': 'created', 'retry': 0, 'last': e['now'], 'content': content(e), 'tid': e['tid'], 'pid': e['pid'], 'desc': f"{e['type']}/{e['state']}/{e['key']}"}
+                    M[i] = {'seen': {(0, 0)}, 'epoch': 0, 'maybe_completed': True, 'first_seq': e['seq'], 'status': 'created', 'retry': 0, 'last': e['now'], 'content': content(e), 'tid': e['tid'], 'pid': e['pid'], 'desc': f"{e['type']}/{e['state']}/{e['key']}"}
                     if not acted:
                         M[i].pop('maybe_completed')
                     continue
                 if i not in M:
-                    out.append(V('C09', 'redelivery-of-unknown-message', store, f"message {i} arrived with retry {e['retry']} but was never delivered first", scenario=sid))
-                    continue
+                    # handlers run in independently spawned tasks: the record of a redelivery can be written before
+                    # the record of the first delivery of the same message
+                    M[i] = {'first_seq': e['seq'], 'status': 'created', 'retry': -1, 'last': e['now'], 'content': content(e), 'tid': e['tid'], 'pid': e['pid'],
+                            'desc': f"{e['type']}/{e['state']}/{e['key']}", 'seen': set(), 'epoch': 0}
                 x = M[i]
                 w = window_of(e['seq'])
                 obs['c09.redeliveries'] += 1
@@ -102,14 +110,19 @@ class AckFamily:
                     obs['c09.redeliveries-by-the-engines-own-timer'] += 1   # the interval timer's tick (e.g. the start-up tick) is a tick too
                 if content(e) != x['content']:
                     out.append(V('C09', 'redelivered-content-differs', store, f"message {x['desc']} changed between deliveries", scenario=sid))
-                if e['retry'] != x['retry'] + 1:
-                    out.append(V('C09', 'retry-arithmetic', f"{store}:{x['retry']}->{e['retry']}", f"message {x['desc']}: retry went {x['retry']} -> {e['retry']}", scenario=sid))
+                if (x['epoch'], e['retry']) in x['seen']:
+                    out.append(V('C09', 'retry-arithmetic', f"{store}:repeated", f"message {x['desc']}: retry {e['retry']} was delivered twice", scenario=sid))
+                x['seen'].add((x['epoch'], e['retry']))
                 if e['retry'] > MAX:
                     out.append(V('C09', 'retry-beyond-maximum', store, f"message {x['desc']}: retry {e['retry']} > max {MAX}", scenario=sid))
                 if w is not None:
                     if i in redelivered[w[0]]:
                         out.append(V('C09', 'redelivered-twice-in-one-tick', store, f"message {x['desc']} delivered twice in one tick", scenario=sid))
                     redelivered[w[0]].append(i)
+                if e['retry'] > x['retry']:
+                    x['retry'] = e['retry']
+                    x['last'] = e['now']
+                continue
                 x['retry'] = e['retry']
                 x['last'] = e['now']
             elif t == 'ack' and e['ok'] and e['id'] in M:
@@ -148,7 +161,7 @@ class AckFamily:
                     for x in M.values():
                         if x['status'] == 'error' or x.get('maybe_error'):
                             if x['status'] == 'error':
-                                x.update(status='created', retry=0, last=e['res'].get('now', x['last']))
+                                x.update(status='created', retry=0, last=e['res'].get('now', x['last']), epoch=x['epoch'] + 1)
                             else:
                                 x['maybe_redo'] = True
                     obs['c09.redos'] += 1
@@ -179,7 +192,7 @@ class AckFamily:
                                 if rs == 'error':
                                     x['status'] = 'error'
                                 elif x.get('maybe_redo') and r['retry_times'] == 0:
-                                    x.update(status='created', retry=0)
+                                    x.update(status='created', retry=0, epoch=x['epoch'] + 1)
                                 x.pop('maybe_error', None)
                                 x.pop('maybe_redo', None)
                                 continue
@@ -188,4 +201,12 @@ class AckFamily:
                             x['status'] = rs if rs in ('created', 'acked', 'completed', 'error') else x['status']
                         elif x['status'] == 'created' and r['retry_times'] != x['retry']:
                             out.append(V('C09', 'stored-retry', f"{store}", f"message {x['desc']}: stored retry_times {r['retry_times']}, observed {x['retry']}", scenario=sid))
+        for i, x in M.items():
+            by = collections.defaultdict(set)
+            for ep, r in x['seen']:
+                by[ep].add(r)
+            for ep, rs in by.items():
+                lo = 0 if ep == 0 else 1
+                if rs and sorted(rs) != list(range(min(rs), max(rs) + 1)) or (rs and min(rs) > lo and not x.get('maybe_redo')):
+                    out.append(V('C09', 'retry-arithmetic', f"{store}:gap", f"message {x['desc']}: retries delivered {sorted(rs)} (epoch {ep})", scenario=sid))
         return out
